@@ -78,6 +78,26 @@ BUILT = {
         'relation route, U and H offsets use the same barrier; pre-exponential factors: (kT/h)exp(dS+m), q route, positivity, kB/h per unit '
         'temperature without TS, site-density power (n_surf - 1) for sum/min/max/mean.',
    note=BASE_NOTE + '; integer surface stoichiometries 1-3 enumerated; abstract species stubs'),
+ 'C19': dict(level='proof', sec='4/C19',
+   text='For abstract formation reactions (get_delta_GoRT an unknown pure function of the conditions): every table entry equals the '
+        'reaction value / norm factor (x R T with units); the reported stable phase at every grid point has the lowest tabulated energy, '
+        'for 1-D and 2-D scans, and the two agree; Reactions.get_E_span equals highest - lowest state energy plus the overall reaction '
+        'energy when the highest state precedes the lowest.',
+   note=BASE_NOTE + '; shapes enumerated (1-3 reactions x 1-3 grid values per axis; 1-3 step sequences); np.nanargmin/argmin/argmax first-best semantics'),
+ 'C10': dict(level='proof', sec='4/C10',
+   text='get_descriptors / get_descriptors_matrix build the composition matrix; fit_HoRT_offset hands lstsq exactly that matrix and '
+        'HoRT_dft - HoRT_exp, so (with the normal equations as the assumed lstsq contract) the residual is orthogonal to the composition '
+        'matrix, and for uniquely determined offsets and equal reference temperatures every reference enthalpy is reproduced; get_HoRT is '
+        'linear in composition, T-independent in energy units, warns on unknown descriptors; S/Cp/Cv/U contributions are 0; in StatMech the '
+        'adjustment is added to H and G only and disappears exactly with use_references=False.',
+   note=BASE_NOTE + '; numpy.linalg.lstsq satisfies the normal equations (assumed contract); reference-set shapes enumerated (1-3 references, 1-2 descriptors)'),
+ 'C03': dict(level='proof', sec='4/C03',
+   text='With np.polyfit / curve_fit results treated as ARBITRARY reals: _fit_HoRT/_fit_SoR anchor the segment containing T_ref and join at '
+        'T_mid (both branches); Nasa.from_data (T_mid None / scalar / list; T_ref anywhere): bounds span the data, break strictly inside, '
+        'H and S anchored and continuous; NASA-9 integration constants for 1-3 intervals (anchor in the interval containing T_ref, continuity '
+        'at every break) and Nasa9.from_data end to end incl. zero-Cp data; Shomate.from_data anchors for every fitting unit. '
+        'Reproduction of polynomial sources and tracking of StatMech sources: bounded native check only.',
+   note=BASE_NOTE + '; least-squares optimality of polyfit/curve_fit is an assumed library contract; fit quality is a labelled bounded check, never counted as proved; temperature grids concrete, data symbolic'),
 }
 REASON_PENDING = 'check not built yet (build phase in progress; see DESIGN.md section 10)'
 checks = []
